@@ -26,21 +26,25 @@ theorem evaluate_post {sem : Sem} {m : MState} {Post : Nat → List Addr → Add
 
 /-! ### termination -/
 
+theorem postOK_term (sem : Sem) (m : MState) :
+    PostOK sem m (fun fuel E _ r => ∀ n, r = .exc .recursion n → fuel + E.length ≤ formulaCount m) := {
+  val := by intros; simp_all
+  zero := fun E a hW n _ => by have := wfe_length hW; omega
+  cycle := by intros; simp_all
+  up := fun fuel E a f b k n hW hf hn hb hp hk n' he => by
+    cases he
+    have := hp n rfl
+    simp only [List.length_cons] at this
+    omega
+  rt := by intros; simp_all
+  pb := by intros; simp_all }
+
+
 /-- **terminates.** With a recursion budget above the number of formula cells the outcome is never
     `RecursionError` — for every model, cyclic or not, and every function semantics. -/
 theorem terminates (sem : Sem) (m : MState) (a : Addr) (fuel : Nat) (h : formulaCount m < fuel) :
     ∀ n, outcome sem fuel m a ≠ .exc .recursion n := by
-  have P : PostOK sem m (fun fuel E _ r => ∀ n, r = .exc .recursion n → fuel + E.length ≤ formulaCount m) := {
-    val := by intros; simp_all
-    zero := fun E a hW n _ => by have := wfe_length hW; omega
-    cycle := by intros; simp_all
-    up := fun fuel E a f b k n hW hf hn hb hp hk n' he => by
-      cases he
-      have := hp n rfl
-      simp only [List.length_cons] at this
-      omega
-    rt := by intros; simp_all
-    pb := by intros; simp_all }
+  have P := postOK_term sem m
   intro n hn
   have := (evaluate_post P fuel a).1 n hn
   simp at this
@@ -52,26 +56,30 @@ example : formulaCount { cells := [(['A'], { value := .s .blank, formula := some
 
 /-! ### soundness of cycle reports -/
 
+theorem postOK_cycle (sem : Sem) (m : MState) :
+    PostOK sem m (fun _ E a r => ∀ n, r = .exc .cycle n →
+    ∃ y, Reach (deps m) (m.resolve a) y ∧ (y ∈ E ∨ OnCycle (deps m) y)) := {
+  val := by intros; simp_all
+  zero := by intros; simp_all
+  cycle := fun fuel E a hW hin n _ => ⟨m.resolve a, .refl _, .inl hin⟩
+  up := fun fuel E a f b k n hW hf hn hb hp hk n' he => by
+    cases he
+    obtain ⟨y, hy, hy2⟩ := hp n rfl
+    have hdep : m.resolve b ∈ deps m (m.resolve a) := by
+      simp only [deps, hf]; exact List.mem_map.mpr ⟨b, hb, rfl⟩
+    rcases hy2 with hy2 | hy2
+    · rcases List.mem_cons.mp hy2 with rfl | hy2
+      · exact ⟨m.resolve a, .refl _, .inr ⟨m.resolve b, hdep, hy⟩⟩
+      · exact ⟨y, .step hdep hy, .inl hy2⟩
+    · exact ⟨y, .step hdep hy, .inr hy2⟩
+  rt := by intros; simp_all
+  pb := by intros; simp_all }
+
+
 /-- every cycle report points at a real cycle: the entry cell reaches a cell that depends on itself -/
 theorem cycle_report_real (sem : Sem) (m : MState) (a : Addr) (fuel n : Nat)
     (h : outcome sem fuel m a = .exc .cycle n) : ReachesCycle (deps m) (m.resolve a) := by
-  have P : PostOK sem m (fun _ E a r => ∀ n, r = .exc .cycle n →
-      ∃ y, Reach (deps m) (m.resolve a) y ∧ (y ∈ E ∨ OnCycle (deps m) y)) := {
-    val := by intros; simp_all
-    zero := by intros; simp_all
-    cycle := fun fuel E a hW hin n _ => ⟨m.resolve a, .refl _, .inl hin⟩
-    up := fun fuel E a f b k n hW hf hn hb hp hk n' he => by
-      cases he
-      obtain ⟨y, hy, hy2⟩ := hp n rfl
-      have hdep : m.resolve b ∈ deps m (m.resolve a) := by
-        simp only [deps, hf]; exact List.mem_map.mpr ⟨b, hb, rfl⟩
-      rcases hy2 with hy2 | hy2
-      · rcases List.mem_cons.mp hy2 with rfl | hy2
-        · exact ⟨m.resolve a, .refl _, .inr ⟨m.resolve b, hdep, hy⟩⟩
-        · exact ⟨y, .step hdep hy, .inl hy2⟩
-      · exact ⟨y, .step hdep hy, .inr hy2⟩
-    rt := by intros; simp_all
-    pb := by intros; simp_all }
+  have P := postOK_cycle sem m
   obtain ⟨y, hy, hy2⟩ := (evaluate_post P fuel a).1 n h
   rcases hy2 with hy2 | hy2
   · cases hy2
@@ -165,6 +173,46 @@ theorem formulaAt_cell {m : MState} {e : Addr} {f : Fx} (h : formulaAt m e = som
   | none => simp [hc] at h
   | some cell => exact ⟨cell, rfl, by simpa [hc] using h⟩
 
+theorem postOK_msg (sem : Sem) (m : MState) (B : Nat)
+    (hrt : ∀ g vs n, sem.app g vs = .raiseRuntime n → n ≤ B)
+    (hot : ∀ g vs n, sem.app g vs = .raiseOther n → n ≤ B)
+    (hfl : ∀ x f, formulaAt m x = some f → ∀ n ∈ failLens f, n ≤ B) :
+    PostOK sem m (fun _ _ _ r =>
+    (∀ n, r = .exc .cycle n → n ≤ cycleMsgBound (formulaCount m) (maxAddrLen m)) ∧
+    (∀ n, r = .exc .runtime n → n ≤ failMsgBound (maxAddrLen m) (maxFormulaLen m) B) ∧
+    (∀ n, r = .exc .recursion n → n = 0)) := {
+  val := by intros; simp
+  zero := by intros; simp
+  cycle := fun fuel E a hW hin => by
+    refine ⟨fun n hn => ?_, by simp, by simp⟩
+    cases hn
+    obtain ⟨f, hf⟩ := hW.2 _ hin
+    obtain ⟨cell, hc, _⟩ := formulaAt_cell hf
+    have h1 := (cell_bounds hc).1
+    have h2 := sumLens_le E (maxAddrLen m) (fun e he => by
+      obtain ⟨f, hf⟩ := hW.2 _ he
+      obtain ⟨cell, hc, _⟩ := formulaAt_cell hf
+      exact (cell_bounds hc).1)
+    have h3 := Nat.mul_le_mul_right (maxAddrLen m + 3) (wfe_length hW)
+    unfold cycleMsgBound
+    omega
+  up := fun fuel E a f b k n hW hf hn hb hp hk => hp
+  rt := fun fuel E a g vs n hW ha => by
+    refine ⟨by simp, fun n' hn => ?_, by simp⟩
+    cases hn
+    have := hrt g vs n ha
+    unfold failMsgBound; omega
+  pb := fun fuel E a cell f n hW hc hf hn hsrc => by
+    refine ⟨by simp, fun n' hn' => ?_, by simp⟩
+    cases hn'
+    have hb := cell_bounds hc
+    have hn : n ≤ B := by
+      rcases hsrc with ⟨g, vs, h⟩ | h
+      · exact hot g vs n h
+      · exact hfl (m.resolve a) f (by simp [formulaAt, hc, hf]) n h
+    unfold failMsgBound; omega }
+
+
 /-- **message_linear.** Whatever the depth of the dependency chain a failure travelled through:
     * a cycle report is at most `20 + L + N·(L+3)` characters (`N` formula cells, addresses ≤ `L`):
       linear in the length of the chain in progress;
@@ -180,40 +228,7 @@ theorem message_linear (sem : Sem) (m : MState) (a : Addr) (fuel B : Nat)
     (∀ n, outcome sem fuel m a = .exc .runtime n → n ≤ failMsgBound (maxAddrLen m) (maxFormulaLen m) B) ∧
     (∀ n, outcome sem fuel m a = .exc .recursion n → n = 0) ∧
     (∀ n, outcome sem fuel m a ≠ .exc .problem n) := by
-  have P : PostOK sem m (fun _ _ _ r =>
-      (∀ n, r = .exc .cycle n → n ≤ cycleMsgBound (formulaCount m) (maxAddrLen m)) ∧
-      (∀ n, r = .exc .runtime n → n ≤ failMsgBound (maxAddrLen m) (maxFormulaLen m) B) ∧
-      (∀ n, r = .exc .recursion n → n = 0)) := {
-    val := by intros; simp
-    zero := by intros; simp
-    cycle := fun fuel E a hW hin => by
-      refine ⟨fun n hn => ?_, by simp, by simp⟩
-      cases hn
-      obtain ⟨f, hf⟩ := hW.2 _ hin
-      obtain ⟨cell, hc, _⟩ := formulaAt_cell hf
-      have h1 := (cell_bounds hc).1
-      have h2 := sumLens_le E (maxAddrLen m) (fun e he => by
-        obtain ⟨f, hf⟩ := hW.2 _ he
-        obtain ⟨cell, hc, _⟩ := formulaAt_cell hf
-        exact (cell_bounds hc).1)
-      have h3 := Nat.mul_le_mul_right (maxAddrLen m + 3) (wfe_length hW)
-      unfold cycleMsgBound
-      omega
-    up := fun fuel E a f b k n hW hf hn hb hp hk => hp
-    rt := fun fuel E a g vs n hW ha => by
-      refine ⟨by simp, fun n' hn => ?_, by simp⟩
-      cases hn
-      have := hrt g vs n ha
-      unfold failMsgBound; omega
-    pb := fun fuel E a cell f n hW hc hf hn hsrc => by
-      refine ⟨by simp, fun n' hn' => ?_, by simp⟩
-      cases hn'
-      have hb := cell_bounds hc
-      have hn : n ≤ B := by
-        rcases hsrc with ⟨g, vs, h⟩ | h
-        · exact hot g vs n h
-        · exact hfl (m.resolve a) f (by simp [formulaAt, hc, hf]) n h
-      unfold failMsgBound; omega }
+  have P := postOK_msg sem m B hrt hot hfl
   have := evaluate_post P fuel a
   exact ⟨this.1.1, this.1.2.1, this.1.2.2, this.2⟩
 
@@ -233,6 +248,92 @@ theorem work_linear_chain (sem : Sem) (m : MState) (a : Addr) (fuel : Nat) (hch 
   have := cell_chain (sem := sem) (lawful_mut m) hch fuel { st := m, evaluating := [], memo := [] } a
     (agree_mut_refl m) (wfe_nil m)
   simpa [trace, evaluate] using this
+
+/-! ### one evaluator, several evaluations (an `Evaluator` object is reused; a failure must leave no trace) -/
+
+/-- **evaluating_restored.** `evaluate` leaves `_evaluating` exactly as it found it on EVERY path — value, cycle
+    report, wrapped failure, re-raised RuntimeError (subclasses included), RecursionError — for every model,
+    state and function semantics.  (A `pop` that is skipped on the re-raise path breaks exactly this.) -/
+theorem evaluating_restored (sem : Sem) (fuel : Nat) (e : EvState) (a : Addr) :
+    (evaluateOn sem fuel e a).1.evaluating = e.evaluating := by
+  simp only [evaluateOn]
+  exact XlVerif.Lemmas.C06.evaluating_restored mutStore sem fuel _ a
+
+/-- after any history of evaluations the in-progress list is what it was before (empty for a new evaluator) -/
+theorem history_evaluating (sem : Sem) (fuel : Nat) (hist : List Addr) :
+    ∀ e : EvState, (runHist sem fuel e hist).1.evaluating = e.evaluating := by
+  induction hist with
+  | nil => intro e; rfl
+  | cons a rest ih =>
+    intro e
+    simp only [runHist]
+    rw [ih, evaluating_restored]
+
+/-- an evaluator state reachable from a new evaluator on model `m`: same formulas / ranges / names, nothing in
+    progress (stored values may have been overwritten by earlier evaluations) -/
+def GoodEv (m : MState) (e : EvState) : Prop := Agree mutStore m e.st ∧ e.evaluating = []
+
+theorem goodEv_new (m : MState) : GoodEv m { st := m } := ⟨agree_mut_refl m, rfl⟩
+
+theorem evaluateOn_post {sem : Sem} {m : MState} {Post : Nat → List Addr → Addr → Res → Prop}
+    (P : PostOK sem m Post) (fuel : Nat) (e : EvState) (a : Addr) (h : GoodEv m e) :
+    (Post fuel [] a (evaluateOn sem fuel e a).2 ∧ ∀ n, (evaluateOn sem fuel e a).2 ≠ .exc .problem n) ∧
+    GoodEv m (evaluateOn sem fuel e a).1 := by
+  have := cell_post (lawful_mut m) P fuel { st := e.st, evaluating := e.evaluating, memo := [] } a h.1
+    (by rw [h.2]; exact wfe_nil m)
+  simp only [evaluateOn]
+  simp only [h.2] at this ⊢
+  exact ⟨⟨this.2.2.1, this.2.2.2⟩, this.1, this.2.1⟩
+
+/-- every postcondition of a single evaluation on a new evaluator holds for EVERY evaluation of a history on one
+    evaluator -/
+theorem history_post {sem : Sem} {m : MState} {Post : Nat → List Addr → Addr → Res → Prop}
+    (P : PostOK sem m Post) (fuel : Nat) (hist : List Addr) :
+    ∀ e : EvState, GoodEv m e →
+      (∀ p ∈ hist.zip (runHist sem fuel e hist).2, Post fuel [] p.1 p.2 ∧ ∀ n, p.2 ≠ .exc .problem n) ∧
+      GoodEv m (runHist sem fuel e hist).1 := by
+  induction hist with
+  | nil => intro e h; exact ⟨by simp [runHist], h⟩
+  | cons a rest ih =>
+    intro e h
+    have h1 := evaluateOn_post P fuel e a h
+    have h2 := ih _ h1.2
+    simp only [runHist, List.zip_cons_cons, List.mem_cons]
+    refine ⟨fun p hp => ?_, h2.2⟩
+    rcases hp with rfl | hp
+    · exact h1.1
+    · exact h2.1 p hp
+
+/-- **history_cycle_sound.** On one evaluator, whatever was evaluated before and however it ended: a cycle report
+    for entry `a` means that `a` reaches a real cycle.  An acyclic entry point is never flagged after a failure. -/
+theorem history_cycle_sound (sem : Sem) (m : MState) (fuel : Nat) (hist : List Addr) (a : Addr) (n : Nat)
+    (h : (a, Res.exc .cycle n) ∈ hist.zip (runHist sem fuel { st := m } hist).2) :
+    ReachesCycle (deps m) (m.resolve a) := by
+  obtain ⟨y, hy, hy2⟩ := ((history_post (postOK_cycle sem m) fuel hist _ (goodEv_new m)).1 _ h).1 n rfl
+  rcases hy2 with hy2 | hy2
+  · cases hy2
+  · exact ⟨y, hy, hy2⟩
+
+/-- **history_terminates / history_message_linear.** The budget and the message bounds hold for every
+    evaluation of a history as well. -/
+theorem history_terminates (sem : Sem) (m : MState) (fuel : Nat) (hist : List Addr) (a : Addr) (n : Nat)
+    (hf : formulaCount m < fuel) :
+    (a, Res.exc .recursion n) ∉ hist.zip (runHist sem fuel { st := m } hist).2 := by
+  intro h
+  have := ((history_post (postOK_term sem m) fuel hist _ (goodEv_new m)).1 _ h).1 n rfl
+  simp at this
+  omega
+
+theorem history_message_linear (sem : Sem) (m : MState) (fuel B : Nat) (hist : List Addr) (a : Addr) (r : Res)
+    (hrt : ∀ g vs n, sem.app g vs = .raiseRuntime n → n ≤ B)
+    (hot : ∀ g vs n, sem.app g vs = .raiseOther n → n ≤ B)
+    (hfl : ∀ x f, formulaAt m x = some f → ∀ n ∈ failLens f, n ≤ B)
+    (h : (a, r) ∈ hist.zip (runHist sem fuel { st := m } hist).2) :
+    (∀ n, r = .exc .cycle n → n ≤ cycleMsgBound (formulaCount m) (maxAddrLen m)) ∧
+    (∀ n, r = .exc .runtime n → n ≤ failMsgBound (maxAddrLen m) (maxFormulaLen m) B) ∧
+    (∀ n, r ≠ .exc .problem n) := by
+  have := (history_post (postOK_msg sem m B hrt hot hfl) fuel hist _ (goodEv_new m)).1 _ h
+  exact ⟨this.1.1, this.1.2.1, this.2⟩
 
 /-- the executable oracle of the correspondence (`Spec.C06.cyclicFrom` on `deps m`) only answers "cyclic" when a
     cycle is reachable; its completeness for `fuel > formulaCount m` is cross-checked on every generated graph
@@ -298,6 +399,12 @@ example : chainModel failChain := by
       · cases h; decide
       · cases h
 example : (trace sumSem 10 failChain (adr "A")).length = 3 := by decide
+/-- one evaluator: the failing chain evaluated at A, then at B, C and A again — the same report each time, never
+    a cycle report, nothing left in progress -/
+example : (runHist sumSem 10 { st := failChain } [adr "A", adr "B", adr "C", adr "A"]).2 =
+    [.exc .runtime 51, .exc .runtime 51, .exc .runtime 51, .exc .runtime 51] := by decide
+example : (runHist sumSem 10 { st := rangeCycle } [adr "A", adr "C", adr "B"]).2 =
+    [.exc .cycle 29, .val (.s (.num (.int 1))), .exc .cycle 29] := by decide
 
 end examples
 
